@@ -68,6 +68,7 @@ type Result struct {
 	Fails       []Trace
 	Samples     [][]string
 	OutcomeKeys int
+	ReplayFails int // oracle failures seen only when a passed history was re-run
 	Err         error
 }
 
@@ -77,6 +78,9 @@ type succ struct {
 	fail *Fail
 	err  error
 	n    int
+	// replayed: fail was raised while re-running hist (a prefix that passed
+	// before); the successors of the history being expanded were not explored
+	replayed bool
 }
 
 // Run performs the search.
@@ -142,12 +146,16 @@ func Run(cfg Config) *Result {
 					continue
 				}
 				res.Transitions++
+				if s.replayed {
+					res.Completed = false
+					res.ReplayFails++
+				}
 				if s.fail != nil {
 					if !failSeen[s.fail.Fingerprint] && len(res.Fails) < cfg.MaxFails {
 						failSeen[s.fail.Fingerprint] = true
 						res.Fails = append(res.Fails, Trace{History: s.hist, Fail: s.fail})
 					}
-					if !cfg.ExpandFailed {
+					if !cfg.ExpandFailed || s.replayed {
 						continue
 					}
 				}
@@ -184,21 +192,37 @@ func build(cfg Config, hist []string) (System, error) {
 	if err != nil {
 		return nil, err
 	}
-	for _, op := range hist {
+	for i, op := range hist {
 		if err := s.Apply(op); err != nil {
 			if _, ok := err.(*Fail); ok && cfg.ExpandFailed {
 				continue
 			}
 			s.Close()
+			if f, ok := err.(*Fail); ok {
+				// the oracle failed on the real code while re-running a history
+				// that passed when it was first explored: a violation all the same
+				// (the implementation's answer is not a function of the history)
+				return nil, &replayFail{hist: append([]string{}, hist[:i+1]...), fail: f}
+			}
 			return nil, fmt.Errorf("replay of %q diverged: %v", op, err)
 		}
 	}
 	return s, nil
 }
 
+type replayFail struct {
+	hist []string
+	fail *Fail
+}
+
+func (r *replayFail) Error() string { return "oracle failed on replay: " + r.fail.Error() }
+
 func expand(cfg Config, hist []string) []succ {
 	s, err := build(cfg, hist)
 	if err != nil {
+		if rf, ok := err.(*replayFail); ok {
+			return []succ{{hist: rf.hist, fail: rf.fail, replayed: true}}
+		}
 		return []succ{{hist: hist, err: err}}
 	}
 	ops := s.Ops()
@@ -207,7 +231,11 @@ func expand(cfg Config, hist []string) []succ {
 	for _, op := range ops {
 		s, err := build(cfg, hist)
 		if err != nil {
-			out = append(out, succ{hist: hist, err: err})
+			if rf, ok := err.(*replayFail); ok {
+				out = append(out, succ{hist: rf.hist, fail: rf.fail, replayed: true})
+			} else {
+				out = append(out, succ{hist: hist, err: err})
+			}
 			return out
 		}
 		h := append(append([]string{}, hist...), op)
